@@ -937,6 +937,21 @@ impl SimHooks for World {
                 w.apply_blob_write(&name, id, offset, data, kept, seq);
             }
         }
+        if let FileKind::Index(_) = kind {
+            // reach probe: does the B+tree of this index file have more than one inner level?
+            if offset == 0 && data.len() > crate::faults::INDEX_HEADER_LEN && kept == data.len() {
+                let records = u64::from_le_bytes(data[8..16].try_into().unwrap());
+                let rhs = u64::from_le_bytes(data[16..24].try_into().unwrap());
+                let leaves = (records * rhs) / 4096 + 1;
+                let fanout = (4096 - 16) / (w.key_len as u64 + 8) + 1;
+                if leaves > 1 {
+                    w.probes.bump("index_tree_has_inner_node");
+                }
+                if leaves > fanout {
+                    w.probes.bump("index_tree_has_two_inner_levels");
+                }
+            }
+        }
         if let FileKind::Index(id) = kind {
             // C12b: the header rewrite that sets the `written` bit (index complete) must come after a
             // sync of the blob covering the blob size recorded in that header
@@ -1134,7 +1149,33 @@ impl SimHooks for World {
 
     fn job_enter(&self, token: u64) {
         let mut w = self.inner.borrow_mut();
-        w.running_jobs.push(token);
+        // a preemptible job is "current" only while one of its file operations is dispatched
+        if !w.sched.preempt_jobs {
+            w.running_jobs.push(token);
+        }
+    }
+
+    fn job_preemptible(&self, _token: u64) -> bool {
+        self.inner.borrow().sched.preempt_jobs
+    }
+
+    fn job_preempt(&self, token: u64) -> bool {
+        let mut w = self.inner.borrow_mut();
+        w.buggify_ctr += 1;
+        let y = mix_all(&[w.sched.seed, 5, token, w.buggify_ctr]) % 2 == 0;
+        if y {
+            w.probes.bump("closure_preempted_at_io_call");
+        }
+        y
+    }
+
+    fn job_call(&self, token: u64, begin: bool) {
+        let mut w = self.inner.borrow_mut();
+        if begin {
+            w.running_jobs.push(token);
+        } else if let Some(p) = w.running_jobs.iter().rposition(|t| *t == token) {
+            w.running_jobs.remove(p);
+        }
     }
 
     fn job_exit(&self, token: u64) {
